@@ -143,6 +143,66 @@ def rule_units(ctx, f):
     ctx.floor("C17-UNITS", nsrc, 2, "uses of startxref (load, scan)")
 
 
+def rule_seen_units(ctx, f, rid="C17-UNITS"):
+    """the list of section offsets already visited on the /Prev walk: what is put into it and what is looked up in it are offsets of the same kind
+    (both relative to the header, or both absolute).  Mixed kinds agree only when the header is at byte 0: with bytes in front of it a loop of
+    /Prev pointers is never noticed (hang) or a valid chain is reported as a loop.  Shared by C17 (prefix), C01 and C14 (the loop guard)."""
+    u = Units(f)
+    n = 0
+    for b in f.bodies.values():
+        reads = call_sites(b, lambda nm, t: last_seg(nm) == "read_xref_and_trailer_at")
+        conts = call_sites(b, lambda nm, t: last_seg(nm) == "contains")
+        if len(reads) < 2 or not conts:
+            continue
+        fl = Flow(b)
+        cfg = CFG(b)
+
+        def kind(l, at):
+            tags = u.classify(b, l, at=at, cfg=cfg, fl=fl) if l is not None else set()
+            if "base" in tags or ("abs" in tags and "rel" not in tags):
+                return "absolute"
+            if "rel" in tags:
+                return "relative"
+            return None
+        for bi, t in conts:
+            # the looked-up value
+            vl = arg_local(t, 1)
+            vsrc = vl
+            for d in fl.defs.get(vl, []) if vl is not None else []:
+                if d[0] == "assign" and d[2][0] in ("ref", "rawptr") and len(d[2][1]) == 1:
+                    vsrc = d[2][1][0]
+            kq = kind(vsrc, bi)
+            # the collection and everything stored into it
+            cl = arg_local(t, 0)
+            croots = {a[2] for a in fl.origins(cl, passthrough=("deref", "deref_mut", "as_slice", "as_mut_slice")) if a[0] in ("call", "agg")} if cl is not None else set()
+            stored = []
+            for pi, pt in F.calls(b):
+                if last_seg(F.callee_name(pt)) in ("push", "insert", "push_back") and len(pt["args"]) >= 2:
+                    pl0 = arg_local(pt, 0)
+                    proots = {a[2] for a in fl.origins(pl0, passthrough=("deref", "deref_mut", "as_slice", "as_mut_slice")) if a[0] in ("call", "agg")} if pl0 is not None else set()
+                    if proots & croots:
+                        stored.append((pi, arg_local(pt, 1), pt["span"]))
+            # initial elements: `vec![x]` = a boxed array literal / from_elem in the provenance of the collection
+            for a in fl.origins(cl, passthrough=("deref", "deref_mut", "as_slice", "as_mut_slice", "into_vec", "box_assume_init_into_vec_unsafe", "from_elem")) if cl is not None else []:
+                if a[0] == "agg" and a[1].get("k") == "array":
+                    for o in a[3][2]:
+                        if F.op_local(o) is not None:
+                            stored.append((a[2], F.op_local(o), b["blocks"][a[2]]["term"].get("span", b["span"])))
+            for i2, j2, st in F.stmts(b):
+                # the array literal is written through the box: `(*_box) = [x]`
+                if st[0] == "assign" and st[2][0] == "aggregate" and st[2][1].get("k") == "array" and st[2][1].get("elem") == "usize":
+                    for o in st[2][2]:
+                        if F.op_local(o) is not None and (i2, F.op_local(o)) not in [(x[0], x[1]) for x in stored]:
+                            stored.append((i2, F.op_local(o), b["blocks"][i2]["term"].get("span", b["span"])))
+            n += 1
+            kinds = {kind(l, at) for at, l, sp in stored}
+            ok = kq is not None and kinds <= {kq} and bool(stored)
+            ctx.check(ok, rid, b["id"] + "#visited-offsets", "the list of visited section offsets holds %s offsets but is asked for a %s one: the two agree only for a file whose "
+                      "header is at byte 0 - with bytes in front, a /Prev loop is not noticed (the walk never ends) or a valid chain is taken for a loop"
+                      % (sorted(str(k) for k in kinds), kq), t["span"], detail="stored and looked-up offsets are both %s" % kq)
+    ctx.floor(rid, n, 1, "look-ups in the list of visited section offsets")
+
+
 def rule_table(ctx, f):
     ctx.rule("C17-TABLE", "the header is searched in the first 1024 bytes for the marker %PDF-; the first match defines the base, which is the "
              "only definition of Storage.start_offset on load")
@@ -196,6 +256,7 @@ def run(ctx):
     f = F.load("default")
     ctx.count("bodies", len(f.bodies))
     rule_units(ctx, f)
+    rule_seen_units(ctx, f)
     rule_table(ctx, f)
     return ctx.finish(
         "Static analysis of MIR facts of backend.rs / file.rs: a units abstraction {Rel, Base, Abs} over usize values derived from their "
